@@ -756,6 +756,33 @@ for _n in ('listdir', 'remove', 'rmdir', 'rename', 'unlink', 'mkdir', 'makedirs'
     setattr(_os_facade, _n, _fs(_n, getattr(_os_mod, _n)))
 
 
+# environment stubs: when set, time.time() / asyncio.sleep() / NamedTemporaryFile inside pymap modules go here
+ENV_HOOK: dict = {'clock': None, 'sleep': None}
+import time as _time_mod
+import asyncio as _asyncio_mod
+import tempfile as _tempfile_mod
+
+_time_facade = types.ModuleType('time')
+_time_facade.__dict__.update(vars(_time_mod))
+_time_facade.time = lambda: ENV_HOOK['clock']() if ENV_HOOK['clock'] is not None else _time_mod.time()  # type: ignore
+_asyncio_facade = types.ModuleType('asyncio')
+_asyncio_facade.__dict__.update(vars(_asyncio_mod))
+_asyncio_facade.sleep = (lambda d, *a, **k: ENV_HOOK['sleep'](d) if ENV_HOOK['sleep'] is not None  # type: ignore
+                         else _asyncio_mod.sleep(d, *a, **k))
+_tempfile_facade = types.ModuleType('tempfile')
+_tempfile_facade.__dict__.update(vars(_tempfile_mod))
+
+
+def _named_temp(*a: Any, **k: Any) -> Any:
+    h = FS_HOOK[0]
+    if h is not None and hasattr(h, 'named_temp'):
+        return h.named_temp(*a, **k)
+    return _tempfile_mod.NamedTemporaryFile(*a, **k)
+
+
+_tempfile_facade.NamedTemporaryFile = _named_temp  # type: ignore
+
+
 def _open(*a: Any, **k: Any) -> Any:
     h = FS_HOOK[0]
     if h is not None:
@@ -783,6 +810,12 @@ def _import(name: str, globals: Any = None, locals: Any = None,
             return _codecs_facade
         if name == 'os':
             return _os_facade
+        if name == 'time':
+            return _time_facade
+        if name == 'asyncio' and not fromlist:
+            return _asyncio_facade
+        if name == 'tempfile':
+            return _tempfile_facade
         if name == 'os.path':
             return _os_facade if not fromlist else _ospath_facade
     return builtins.__import__(name, globals, locals, fromlist, level)
